@@ -878,7 +878,12 @@ def run(ck, ctx):
         N = I.res(I.elem(va[3], 6), K.st)                       # particle number per step
         D = I.res(one("CphotAng.d_to_det")[3], K.st)           # distance of each step to the detector
         S = I.res(one("CphotAng.photon_sum")[3], K.st)
-        Y = I.res(one("CphotAng.sphoton_yeild")[3], K.st)      # final version: zeroed below the cloud top
+        # the yield the angular integration is given (zeroed below the cloud top, in place or as a new array): what
+        # photon_sum received as its first array; the model function's own return value if that cannot be read
+        ps_ = one("CphotAng.photon_sum")
+        ent_ = getattr(ps_[2], "entry", ps_[2])
+        pn_ = [a_.arg for a_ in ps_[0].node.args.args if a_.arg != "self"]
+        Y = I.res(ent_[pn_[0]], K.st) if pn_ and pn_[0] in ent_ else I.res(one("CphotAng.sphoton_yeild")[3], K.st)
         T = I.res(one("CphotAng.tracklen")[3], K.st)
         c = I.res(I.elem(one("CphotAng.cherenkov_threshold_angle")[3], 1), K.st)
         dd = [x for x in I.call_log if x[0].qualname == "distance_to_detector"]
